@@ -457,6 +457,33 @@ impl<'a> Bfs<'a> {
                     }
                 }};
             }
+            // Bytes::store / Bytes::load: atomic accesses through the byte-access interface must obey
+            // the same rule (fits the slice, aligned), and must not touch anything outside it
+            macro_rules! bytes_atomic {
+                ($t:ty) => {{
+                    use std::sync::atomic::Ordering;
+                    self.transitions += 1;
+                    let sz = size_of::<$t>();
+                    let ok = fits(o, sz, len) && (p.wrapping_add(o)) % align_of::<$t>() == 0;
+                    root.reset();
+                    let st = s.store::<$t>(0x5a as $t, o, Ordering::SeqCst).is_ok();
+                    let intact = root.outside_intact(off + o.min(len), if ok { sz } else { 0 });
+                    let ld = s.load::<$t>(o, Ordering::SeqCst).is_ok();
+                    if st != ok || ld != ok {
+                        self.fail("Bytes::store/load", if ok { "refused-request-that-fits" } else { "accepted-request-that-does-not-fit-or-is-misaligned" }, node, format!("{}, {}", stringify!($t), o), format!("store ok={} load ok={} (fits {}, address {:#x})", st, ld, fits(o, sz, len), p.wrapping_add(o)));
+                    } else if !intact {
+                        self.fail("Bytes::store/load", "wrote-outside-the-slice", node, format!("{}, {}", stringify!($t), o), "".into());
+                    }
+                }};
+            }
+            if o <= len + 1 {
+                bytes_atomic!(u8);
+                bytes_atomic!(u16);
+                bytes_atomic!(u32);
+                bytes_atomic!(u64);
+                bytes_atomic!(i32);
+                bytes_atomic!(usize);
+            }
             atomic!(AtomicU8);
             atomic!(AtomicU16);
             atomic!(AtomicU32);
